@@ -2,7 +2,7 @@ SPECIFICATION Spec
 CONSTANTS
   Cases <- MCCasesQ
   MACases <- MCMACasesQ
-  Variant = "ok"
+  Variant = "squeeze1"
 INVARIANT LeadingBatch
 INVARIANT OneHotDef
 INVARIANT MultiOneHotDef
